@@ -201,6 +201,9 @@ func c02Render(in *c02In) (string, []Sx) {
 		e.b.WriteString("</stream:stream>")
 		e.toks = append(e.toks, L(Z(1), SBytes(c02NSStream), SBytes("stream")))
 	}
+	// trailing line feed: see c02ErrClass
+	e.b.WriteString("\n")
+	e.toks = append(e.toks, L(Z(2), SBytes("\n")))
 	return e.b.String(), e.toks
 }
 
@@ -231,18 +234,21 @@ func (c *c02ChunkReader) Read(p []byte) (int, error) {
 	return n, nil
 }
 
-func c02ErrClass(err error) int64 {
-	s := err.Error()
-	switch {
-	case s == "connection closed", strings.HasPrefix(s, "NextStart "):
+// c02ErrClass classifies a NextPacket error by what is observable about the decoder, never
+// by the error's text or type (wording and wrapping are not part of the property):
+//
+//	1  the input is exhausted: every byte has been consumed when the error is returned
+//	   (the peer stopped sending, with or without </stream:stream>);
+//	2  an element was rejected: the error is returned while input remains - the element's
+//	   name is not dispatchable or its decoder failed.
+//
+// Every rendered stream ends with a line feed after its last element / end tag, so that a
+// rejected last element (even a self-closing one) still leaves input behind it.
+func c02ErrClass(d *xml.Decoder, total int) int64 {
+	if d.InputOffset() >= int64(total) {
 		return 1
-	case strings.HasPrefix(s, "unknown namespace "):
-		return 2
-	case strings.HasPrefix(s, "unexpected XMPP packet "):
-		return 3
-	default:
-		return 4
 	}
+	return 2
 }
 
 func c02Attrs(code int64, a stanza.Attrs, lang bool) Sx {
@@ -292,7 +298,7 @@ func c02PacketSx(p stanza.Packet) Sx {
 
 // c02Parse: InitStream + NextPacket until error, on one decoder over r.
 // status: 0 ended with an error, 1 timeout, 2 panic, 3 more than limit packets.
-func c02Parse(r io.Reader, limit int, timeout time.Duration) (seq []Sx, status int, detail string) {
+func c02Parse(r io.Reader, total int, limit int, timeout time.Duration) (seq []Sx, status int, detail string) {
 	type res struct {
 		seq    []Sx
 		status int
@@ -314,7 +320,7 @@ func c02Parse(r io.Reader, limit int, timeout time.Duration) (seq []Sx, status i
 		for i := 0; i < limit; i++ {
 			p, err := stanza.NextPacket(d)
 			if err != nil {
-				ch <- res{append(out, L(Z(0), Z(c02ErrClass(err)))), 0, err.Error()}
+				ch <- res{append(out, L(Z(0), Z(c02ErrClass(d, total)))), 0, ""}
 				return
 			}
 			out = append(out, c02PacketSx(p))
@@ -377,14 +383,15 @@ func (c02) Run(inp interface{}) Sx {
 	in := inp.(c02In)
 	if in.Mode == "malformed" {
 		data := c02MalformedBytes(&in)
-		seq, status, detail := c02Parse(&c02ChunkReader{data: data, next: func(int) int { return 4096 }}, 1000, 20*time.Second)
+		seq, status, detail := c02Parse(&c02ChunkReader{data: data, next: func(int) int { return 4096 }}, len(data), 1000, 20*time.Second)
 		if status != 0 {
 			return L(Z(-3), Zi(status), SBytes(detail))
 		}
 		if in.Op == "cut" {
 			// packets before the error must be a prefix of the intact stream's packets
 			body, _ := c02Render(&in)
-			full, st2, _ := c02Parse(strings.NewReader(c02Header(in.Component)+body), 1000, 20*time.Second)
+			fullData := c02Header(in.Component) + body
+			full, st2, _ := c02Parse(strings.NewReader(fullData), len(fullData), 1000, 20*time.Second)
 			if st2 != 0 || len(seq)-1 > len(full) || !c02SeqEq(seq[:len(seq)-1], full[:len(seq)-1]) {
 				return L(Z(-4), LS(seq), LS(full))
 			}
@@ -394,12 +401,12 @@ func (c02) Run(inp interface{}) Sx {
 	body, _ := c02Render(&in)
 	data := []byte(c02Header(in.Component) + body)
 	limit := len(in.Items) + 5
-	whole, status, detail := c02Parse(&c02ChunkReader{data: data, next: func(rem int) int { return rem }}, limit, 60*time.Second)
+	whole, status, detail := c02Parse(&c02ChunkReader{data: data, next: func(rem int) int { return rem }}, len(data), limit, 60*time.Second)
 	if status != 0 {
 		return L(Z(-3), Zi(status), SBytes(detail))
 	}
 	check := func(kind int, rd io.Reader) *Sx {
-		s, st, _ := c02Parse(rd, limit, 60*time.Second)
+		s, st, _ := c02Parse(rd, len(data), limit, 60*time.Second)
 		if st != 0 || !c02SeqEq(s, whole) {
 			x := L(Z(-2), Zi(kind), Zi(st), LS(s), LS(whole))
 			return &x
@@ -656,8 +663,8 @@ func (c02) Oracle(inp interface{}, obs Sx) (string, string) {
 			if o.L[0].Z != 0 {
 				return fmt.Sprintf("element %d (<%s xmlns='%s'/>) is not a known element but yielded a packet", k, n.L, n.NS), "packet-for-unknown"
 			}
-			if o.L[1].Z != 2 && o.L[1].Z != 3 {
-				return fmt.Sprintf("element %d (<%s xmlns='%s'/>): expected an unknown-element error, got class %d", k, n.L, n.NS, o.L[1].Z), "wrong-error-for-unknown"
+			if o.L[1].Z != 2 {
+				return fmt.Sprintf("element %d (<%s xmlns='%s'/>): expected the element to be rejected with input left, got class %d", k, n.L, n.NS, o.L[1].Z), "wrong-error-for-unknown"
 			}
 			if i != len(obs.L)-1 {
 				return "packets after an error", "shape"
@@ -746,7 +753,7 @@ func (g *c02Gen) text() c02Node {
 func (g *c02Gen) val() string { return c02Vals[g.r.Intn(len(c02Vals))] }
 
 func c02El(ns, l string, c ...c02Node) c02Node { return c02Node{K: 0, NS: ns, L: l, C: c} }
-func c02Txt(s string) c02Node                 { return c02Node{K: 1, T: s} }
+func c02Txt(s string) c02Node                  { return c02Node{K: 1, T: s} }
 func (n c02Node) with(l, v string) c02Node {
 	n.A = append(append([]c02Attr{}, n.A...), c02Attr{L: l, V: v})
 	return n
